@@ -3,4 +3,4 @@ CONSTANTS
   IterUniverse <- U_tiny
   MaxSize = 40
   HyperUniverse <- H_quick
-  NumDnas = 5
+  NumDnas = 4
